@@ -174,6 +174,10 @@ class CallMixin:
                 return cell.fields[name]
             cls = cell.cls
             if isinstance(cls, ClassInfo):
+                vw = self.registry.view_for(cls, name)
+                if vw is not None:
+                    # ghost field defined by an abstraction function over the concrete state
+                    return self.registry.spec_natives[vw](self, [obj], {})
                 if obj.addr in self.symbolic_objs:
                     kind = self.registry.field_kind(cls, name)
                     if kind is not None:
@@ -646,8 +650,8 @@ class CallMixin:
             if c.returns and c.returns != "none":
                 result = self.fresh_value(c.returns, f"{c.short}.ret")
             values["result"] = result
-            if "ensures" in c.funcs:
-                post = self.truthy(self.eval_contract_fn(c, "ensures", values, old_heap, old_env))
+            for en_ in sorted(n for n in c.funcs if n == "ensures" or n.startswith("ensures_") and n != "ensures_raise"):
+                post = self.truthy(self.eval_contract_fn(c, en_, values, old_heap, old_env))
                 self.path.assume(post)
             return result
         # exceptional outcome
